@@ -24,6 +24,7 @@ mod c20;
 mod corpus;
 mod surfgen;
 mod lub;
+mod c15;
 mod c17;
 mod spsser;
 mod c19;
@@ -61,6 +62,7 @@ fn main() {
         | "c12" => c12::run(&opts),
         | "c16" => c16::run(&opts),
         | "c20" => c20::run(&opts),
+        | "c15" => c15::run(&opts),
         | "c17" => c17::run(&opts),
         | "c19" => c19::run(&opts),
         | other => {
